@@ -10,7 +10,8 @@ from d42.declaration.types import DictSchema
 from d42.utils import from_native, make_required
 
 MODULE = "D42.Props.C07"
-THEOREMS = []
+THEOREMS = ["history_appends", "entries_stable", "observations_stable", "result_stable", "hstep_appends",
+            "hstep_raise_unchanged", "hstep_observers_pure"]
 FILES = ["D42/Model/History.lean", "D42/Props/C07.lean"]
 
 EVIDENCE = dict(
